@@ -487,9 +487,23 @@ def check_subscripts(ctx: Ctx) -> None:
                         (isinstance(d.value, ast.Call) and isinstance(prog.resolve_call(fi, d.value), list))) for d in defs0):
                     n_sub -= 1
                     continue
-            def facts_x(e: ast.AST, truth: bool, at=node) -> set[str]:
+            def facts_x(e: ast.AST, truth: bool, at=node, _d: int = 0) -> set[str]:
                 """facts of a condition, also read through its single-assignment temporaries (n = len(xs) ... if n == 0)"""
                 out_ = _facts(e, truth)
+                if isinstance(e, ast.Name) and truth and at is not None and _d < 2:
+                    # a flag: ok = False ... if xs and ys: ok = <...> ... if ok:  - whatever was known where it can have become
+                    # true is known when it is true
+                    ds = flow.reaching(at, e.id)
+                    live = [d for d in ds if not (d.kind == "assign" and isinstance(d.value, ast.Constant) and d.value.value in (False, None, 0, ""))]
+                    if ds and live and len(live) < len(ds) and all(d.kind == "assign" for d in ds):
+                        common: set[str] | None = None
+                        for d in live:
+                            fs: set[str] = set()
+                            for b2, lab2 in must_edges(flow.cfg, flow.cfg.entry, d.node) or set():
+                                if b2.kind == "test":
+                                    fs |= facts_x(b2.ast, lab2 == "T", b2, _d + 1)
+                            common = fs if common is None else (common & fs)
+                        out_ |= common or set()
                 if at is not None and any(isinstance(x, ast.Name) for x in ast.walk(e)):
                     try:
                         from ..decide import expand_expr as _xp
